@@ -87,16 +87,19 @@ func (z *Zipper) ComputeDiff() (*ZipperArtifacts, error) {
 }
 
 func (z *Zipper) alignAnchors() error {
-	if len(z.oldFn.Params) != len(z.newFn.Params) {
-		return fmt.Errorf("parameter count mismatch: %d vs %d", len(z.oldFn.Params), len(z.newFn.Params))
+	// Parameters are only seeds for the matching. The two files are type-checked separately, so
+	// a named type (a method receiver, time.Duration) is never types.Identical across them:
+	// compare the spelling as well, and leave a parameter that does not line up unmapped
+	// instead of giving up on the whole pair (which reported an edited pair with no lists).
+	n := len(z.oldFn.Params)
+	if len(z.newFn.Params) < n {
+		n = len(z.newFn.Params)
 	}
-
-	for i, pOld := range z.oldFn.Params {
-		pNew := z.newFn.Params[i]
-		if !types.Identical(pOld.Type(), pNew.Type()) {
-			return fmt.Errorf("parameter %d type mismatch: %s vs %s", i, pOld.Type(), pNew.Type())
+	for i := 0; i < n; i++ {
+		pOld, pNew := z.oldFn.Params[i], z.newFn.Params[i]
+		if types.Identical(pOld.Type(), pNew.Type()) || types.TypeString(pOld.Type(), nil) == types.TypeString(pNew.Type(), nil) {
+			z.mapValue(pOld, pNew)
 		}
-		z.mapValue(pOld, pNew)
 	}
 
 	if len(z.oldFn.FreeVars) == len(z.newFn.FreeVars) {
